@@ -15,13 +15,16 @@ BOUNDED = (" This is a BOUNDED claim: the package's source is evaluated by the c
 CHECKS = {}
 
 CHECKS["C13"] = dict(
-    technique="whole-package effect analysis: who-may-write tracked fields, may-alias analysis of run lists and attribute dicts, memo-accessor shape",
+    technique="whole-package effect analysis: who-may-write tracked fields, may-alias analysis of run lists and attribute dicts, memo-accessor discipline; abstract interpretation of a catalogue of straight-line programs over a value pool with re-observation of every earlier value",
     text="Effect analysis over every function of the package: stores to FmtStr/Chunk fields only in __init__ or in the "
          "slot's own memo accessor; no in-place mutation of any list that may alias a .chunks run list or of any dict that "
          "may alias a run's attributes; each memo accessor stores the complete value once, computed from self.chunks only, "
          "and returns straight after; FrozenAttributes rejects every dict mutator; FmtStr.__setitem__ raises. These are "
          "exactly the ways a pre-existing value or a memoised view can change, so for this property the structural "
-         "clauses cover the statement; what is trusted is Python's copying semantics.",
+         "clauses cover the statement; what is trusted is Python's copying semantics. In addition (bounded catalogue): about 750 "
+         "straight-line programs over a pool of four values built from 28 public operations are interpreted, every earlier value "
+         "re-observed (str, len, s, width, repr, per-character formatting) after every step, memoised views compared with those of "
+         "a freshly built equal value, and item assignment / every dict mutator on a run's attributes must raise and change nothing.",
     note="trusted: *args/list()/slicing/+ build new containers; receivers other than self are matched by attribute name "
          "(over-approximation); that each accessor computes the RIGHT value is not part of C13",
     design="DESIGN.md section 3 C13", partial=False)
@@ -81,7 +84,10 @@ CHECKS["C17"] = dict(
          "parse_args (which run outside the try); parse() lets only ValueError out, from_str catches it and falls back to "
          "remove_ansi(s); the tokenizer neither raises nor applies int() to non-digits; the fallback is re.sub(p,'',s) with "
          "nothing in the count slot, its language lies within ECMA-48 CSI and contains every numeric CSI; without ESC[ the "
-         "input comes back as FmtStr(Chunk(s)).",
+         "input comes back as FmtStr(Chunk(s)). Small-scope exhaustive: fmtstr(s) interpreted for every string of length <= 4 "
+         "(thorough <= 5) over {a, newline, ESC, 0x9b, '[', '1', ';', 'm', 'H'} (thorough plus an intermediate and a private "
+         "parameter byte) and real-world samples: never raises, plain text verbatim, text only loses characters and only inside "
+         "escape-sequence regions, ordinary numeric CSI sequences removed exactly.",
     note="trusted: re/int/str primitives; only the implicit exceptions modelled by the evaluator (dict lookup, int(), "
          "calls with wrong arity) are considered",
     design="DESIGN.md section 3 C17")
